@@ -794,16 +794,27 @@ class VizierServicer(vizier_service_pb2_grpc.VizierServiceServicer):
           early_stopping_decisions_proto
       )
       # Update metadata from result.
-      with self._study_name_to_lock[study_name]:
-        self.datastore.update_metadata(
-            study_name,
-            svz.metadata_util.make_key_value_list(
-                early_stopping_decisions.metadata.on_study
-            ),
-            svz.metadata_util.trial_metadata_to_update_list(
-                early_stopping_decisions.metadata.on_trials
-            ),
+      try:
+        with self._study_name_to_lock[study_name]:
+          self.datastore.update_metadata(
+              study_name,
+              svz.metadata_util.make_key_value_list(
+                  early_stopping_decisions.metadata.on_study
+              ),
+              svz.metadata_util.trial_metadata_to_update_list(
+                  early_stopping_decisions.metadata.on_trials
+              ),
+          )
+      except KeyError as e:
+        # The metadata cannot be stored (e.g. it names a missing trial). Do not
+        # leave the operation ACTIVE forever: later checks would be answered
+        # from it without ever reaching Pythia again.
+        output_operation.status = (
+            vizier_oss_pb2.EarlyStoppingOperation.Status.DONE
         )
+        output_operation.completion_time.CopyFrom(_get_current_time())
+        self.datastore.update_early_stopping_operation(output_operation)
+        grpc_util.handle_exception(e, context)
 
       # Pythia does not guarantee that the output_operation's id
       # will be in the decisions.
